@@ -402,6 +402,12 @@ pub fn run(rep: &Report) {
     let thorough = rep.thorough();
     random_fn_plane(rep, if thorough { 200_000_000 } else { 1_000_000 });
     ins_plane(rep, if thorough { 5000 } else { 80 }, false, rep.seed ^ 0xD1);
+    crate::insplane::edge_plane(rep, if thorough { 300_000 } else { 6000 }, rep.seed ^ 0xE3, false, "C03 at the end of memory", "ins", &|rng| {
+        let bl: Vec<&str> = crate::c01::BLABELS.iter().map(|x| x.0).collect();
+        let wl: Vec<&str> = crate::c01::WLABELS.iter().map(|x| x.0).collect();
+        let op = *rng.pick(&[Un::Mul, Un::Imul, Un::Div, Un::Idiv]);
+        Ins::Un(op, crate::gen::un_form(2 + rng.below(4), rng, &bl, &wl))
+    });
     crate::c03cli::run(rep);
     rep.sample("fn byte_idiv(ax=0xfff9, operand=0x02) -> AL=0xfd AH=0xff (truncation toward zero)".to_string());
     rep.sample("fn word_div(dx=0x0001, ax=0x0000, operand=0x0001) -> divide error (quotient 0x10000 does not fit)".to_string());
